@@ -72,11 +72,13 @@ def list_tree():
         'd1': D({'in.zip': F(data=zbytes(MEMBERS[:3])), 'f': F(1), 'd2': D({'deep.zip': F(data=zbytes(MEMBERS[3:])), 'g': F(2)})}),
         'fake.zip': F(data=b'this is not a zip file'), 'dir.zip': D({'x': F(1)}),
         'hl.zip': {'t': 'f', 'link': 'one.jar'}, 'd1b': D({'again.zip': {'t': 'f', 'link': 'd1/in.zip'}}),
+        # names whose last extension is a zip extension and which also end with a longer, configurable one
+        'lib.src.zip': F(data=zbytes(MEMBERS[:2])), 'pkg': D({'util-sources.jar': F(data=zbytes(MEMBERS[1:2])), 'aaa.zip': F(data=zbytes(MEMBERS[4:5]))}),
     }
 
 
 ARCHIVES = {'./hl.zip': MEMBERS[:1], './d1b/again.zip': MEMBERS[:3], './z6.zip': MEMBERS, './z0.zip': [], './one.jar': MEMBERS[:1], './two.WAR': MEMBERS[:2], './app.ear': MEMBERS[2:4],
-            './d1/in.zip': MEMBERS[:3], './d1/d2/deep.zip': MEMBERS[3:]}
+            './d1/in.zip': MEMBERS[:3], './d1/d2/deep.zip': MEMBERS[3:], './lib.src.zip': MEMBERS[:2], './pkg/util-sources.jar': MEMBERS[1:2], './pkg/aaa.zip': MEMBERS[4:5]}
 
 
 def groups(tier, seed):
@@ -305,17 +307,21 @@ def eval_group(env, group, tier):
             conf0 = open(env.config_path()).read()
             import re
             # the configured spelling of an extension does not matter, as the spelling of the file name does not
-            for spelt in ('[".zip", ".apk"]', '[".ZIP", ".APK"]', '[".Zip", ".Apk"]', '[".zip", ".aPK"]'):
-                try:
-                    env.set_config(re.sub(r'(?ms)^is_zip_archive = \[.*?\]', 'is_zip_archive = ' + spelt, conf0))
-                    o = env.run(['path from . archives into list'], cwd=root)
-                finally:
-                    env.set_config(conf0)
-                exp = [r[1] for r in ordinary_rows(root)]
-                for a, ms in list(ARCHIVES.items()) + [('./extra.apk', MEMBERS[:3])]:
-                    if a.endswith('.zip') or a.endswith('.apk'):
-                        exp += [member_row('', a, m)[1] for m in ms]
-                emit(['config', spelt], o.rc == 0 and sorted(o.rows()) == sorted(exp), 'configured-zip-extensions', dict(o.brief(), expected_n=len(exp), configured=spelt), layer='config')
+            for spelt in ('[".zip", ".apk"]', '[".ZIP", ".APK"]', '[".Zip", ".Apk"]', '[".zip", ".aPK"]', '[".src.zip"]', '[".src.zip", "-sources.jar"]', '["-sources.jar", ".apk"]',
+                          '["ib.src.zip", ".war"]', '[".zip", "sources.JAR"]'):
+                suffixes = [x.lower() for x in re.findall(r'"([^"]+)"', spelt)]
+                for rd in ('sorted', 'rev'):
+                    try:
+                        env.set_config(re.sub(r'(?ms)^is_zip_archive = \[.*?\]', 'is_zip_archive = ' + spelt, conf0))
+                        o = env.run(['path from . archives into list'], cwd=root, preload=True, env={'FSX_READDIR': rd})
+                    finally:
+                        env.set_config(conf0)
+                    exp = [r[1] for r in ordinary_rows(root)]
+                    for a, ms in list(ARCHIVES.items()) + [('./extra.apk', MEMBERS[:3])]:
+                        if any(a.lower().endswith(x) for x in suffixes):
+                            exp += [member_row('', a, m)[1] for m in ms]
+                    emit(['config', spelt, rd], o.rc == 0 and sorted(o.rows()) == sorted(exp), 'configured-zip-extensions',
+                         dict(o.brief(), expected_n=len(exp), configured=spelt, readdir=rd), layer='config')
         elif kind == 'clock':
             members = [member_row(os.path.basename(a), a, m) for a, ms in ARCHIVES.items() for m in ms]
             exp = sorted((m[1], m[5]) for m in members)
